@@ -377,3 +377,46 @@ func ConvertIntToTime(timestampInt int64, timeUnit time.Duration) time.Time {
 		return time.Unix(timestampInt, 0) // 默认按秒处理
 	}
 }
+
+// NullKeyPart is the grouping-key segment of a NULL or missing value. It cannot be
+// produced by KeyPart for any non-NULL value (a backslash in a value is escaped).
+const NullKeyPart = `\N`
+
+// KeyPart renders one grouping value as a segment of a composite key joined with sep.
+// Plain values keep their usual text; the escape byte '\\' and sep are escaped inside a
+// value, so joining the segments of two different tuples never yields the same key
+// (a value containing the separator no longer shifts the column boundary, and an empty
+// string differs from NULL). -0.0 is keyed as 0 because the two compare equal.
+func KeyPart(v any, sep byte) string {
+	if v == nil {
+		return NullKeyPart
+	}
+	switch x := v.(type) {
+	case float64:
+		if x == 0 {
+			x = 0
+		}
+		return strconv.FormatFloat(x, 'f', -1, 64)
+	case bool, int, int8, int16, int32, int64, uint, uint8, uint16, uint32, uint64, float32:
+		return ToString(v) // digits, sign, point: nothing to escape
+	}
+	s := ToString(v)
+	clean := true
+	for i := 0; i < len(s); i++ {
+		if s[i] == '\\' || s[i] == sep {
+			clean = false
+			break
+		}
+	}
+	if clean {
+		return s
+	}
+	out := make([]byte, 0, len(s)+4)
+	for i := 0; i < len(s); i++ {
+		if s[i] == '\\' || s[i] == sep {
+			out = append(out, '\\')
+		}
+		out = append(out, s[i])
+	}
+	return string(out)
+}
